@@ -15,6 +15,7 @@ structure St where
   heavy : Decoration := {}
   wrappers : Array Wrapper := #[]
   ecs : Array (Option (List Nat)) := #[]   -- standalone containers: none = nil pointer
+  handles : Array (Nat × Nat) := #[]       -- column handles taken earlier: (table, n)
   dwMiss : Array Bytes := #[]
 
 /-! ### encoding helpers (must match harness/proto.go) -/
@@ -45,8 +46,8 @@ def optHex (s : String) : Option Bytes := if s == "~" then none else some (unhex
 def optInt (s : String) : Option Int := if s == "~" then none else s.toInt?
 def natOf (s : String) : Nat := s.toNat?.getD 0
 def intOf (s : String) : Int := s.toInt?.getD 0
-def listOf (s : String) : List String := if s == "-" then [] else s.splitOn ","
-def joinC (l : List String) : String := if l.isEmpty then "-" else ",".intercalate l
+def listOf (s : String) : List String := if s == "[]" then [] else s.splitOn ","
+def joinC (l : List String) : String := if l.isEmpty then "[]" else ",".intercalate l
 def idOf (s : String) : Nat := natOf (s.drop 1).toString   -- "T3" → 3
 def b01 (b : Bool) : String := if b then "1" else "0"
 
@@ -78,8 +79,9 @@ def showVal : Option Val → String
   | some (.lws l) => s!"lws{l.length}"
   | some (.mdw w) => s!"mdw{w}"
 
-def parseOwner (s : String) : Target :=
+def parseOwner (hs : Array (Nat × Nat)) (s : String) : Target :=
   match s.splitOn ":" with
+  | ["h", k] => let (t, n) := hs.getD (natOf k) (0, 0); .column t n
   | ["t", n] => .table (natOf n)
   | ["c", t, n] => .column (natOf t) (natOf n)
   | ["r", n] => .row (natOf n)
@@ -232,7 +234,11 @@ def step (st : St) (line : String) : St × String :=
   let toks := (line.splitOn " ").filter (· ≠ "")
   let x := st.ext
   match toks with
-  | ["case", n] => ({ st with w := {}, wrappers := #[], ecs := #[] }, s!"case {n}")
+  | ["case", n] => ({ st with w := {}, wrappers := #[], ecs := #[], handles := #[] }, s!"case {n}")
+  | ["colhandle", t, n] =>
+    if st.w.hasColumn (idOf t) (intOf n) then
+      ({ st with handles := st.handles.push (idOf t, natOf n) }, s!"H{st.handles.size}")
+    else (st, "nil")
   | ["dw", h, n] => ({ st with dwT := st.dwT.insert (unhex h) (natOf n) }, "ok")
   | ["js", h, j] => ({ st with jsT := st.jsT.insert (unhex h) (unhex j) }, "ok")
   | "item" :: i :: args => ({ st with w := setItem st.w (idOf i) (parseItem args) }, "ok")
@@ -336,10 +342,10 @@ def step (st : St) (line : String) : St × String :=
     match st.w.cell? (idOf r) (natOf c) with
     | some ce => ({ st with w := { st.w with copies := st.w.copies ++ [ce] } }, s!"Y{st.w.copies.length}")
     | none => (st, "nocell")
-  | ["setprop", o, k, v] => ({ st with w := st.w.setProp (parseOwner o) (parseKey k) (parseVal v) }, "ok")
-  | ["getprop", o, k] => (st, showVal (st.w.getProp (parseOwner o) (parseKey k)))
+  | ["setprop", o, k, v] => ({ st with w := st.w.setProp (parseOwner st.handles o) (parseKey k) (parseVal v) }, "ok")
+  | ["getprop", o, k] => (st, showVal (st.w.getProp (parseOwner st.handles o) (parseKey k)))
   | ["chainlen", o] =>
-    let n := match parseOwner o with
+    let n := match parseOwner st.handles o with
       | .table t => (st.w.table t).props.length
       | .column t n => ((st.w.column? t n).map (fun (c : Column) => c.props.length)).getD 0
       | .row r => (st.w.row r).props.length
@@ -350,7 +356,7 @@ def step (st : St) (line : String) : St × String :=
     match parseTime tm with
     | none => (st, "refused")
     | some tm =>
-      match st.w.registerCb (parseOwner o) tm (parseCbTarget tg) (parseCb cb) with
+      match st.w.registerCb (parseOwner st.handles o) tm (parseCbTarget tg) (parseCb cb) with
       | some w => ({ st with w := w }, "ok")
       | none => (st, "refused")
   | ["invoke", t] => ({ st with w := st.w.invokeRenderCallbacks x.dw (idOf t) }, "ok")
@@ -365,7 +371,7 @@ def step (st : St) (line : String) : St × String :=
       let stop := match m.res with | .ok _ => none | .error s => some s
       let extra := if wr.kind = .html then
           " rc=" ++ (match wr.html.rowClass with
-            | none => "-"
+            | none => "[]"
             | some _ => joinC (("0" :: ((w.view wr.core).rows.zipIdx.filterMap (fun (r, i) =>
                 match r with | some _ => some (toString (i + 1)) | none => none)))))
         else ""
